@@ -35,6 +35,7 @@ func GenQConfig(t *rapid.T, p QGenParams) QConfig {
 		c.MaxPages = 4096 // bounded but far bigger than any program needs
 	}
 	c.InitMeta = rapid.SampledFrom([]uint32{0, 0, 4, 8}).Draw(t, "initMeta")
+	c.Observer = rapid.IntRange(0, 1).Draw(t, "observer") == 1
 	return c
 }
 
